@@ -847,6 +847,8 @@ pub fn check_main(prop: Prop, tier: Tier, seed: u64) -> i32 {
     }
     let faults: BTreeMap<String, u64> = stats.counters.iter().filter(|(k, _)| k.starts_with("fault.")).map(|(k, v)| (k.clone(), *v)).collect();
     let probes: BTreeMap<String, u64> = stats.counters.iter().filter(|(k, _)| k.starts_with("probe.")).map(|(k, v)| (k.clone(), *v)).collect();
+    // C05: which (rights subset, ep present, side to move) combinations were written and re-read
+    let c05_cover = stats.counters.keys().filter(|k| k.starts_with("c05.cover.")).count();
     let ev = json!({
         "property_id": prop.id(),
         "tier": if tier == Tier::Quick { "quick" } else { "thorough" },
@@ -862,6 +864,7 @@ pub fn check_main(prop: Prop, tier: Tier, seed: u64) -> i32 {
             "runs_per_hour": if wall > 0.0 { (runs_done as f64 / wall * 3600.0) as u64 } else { 0 },
             "simulated_clock_ticks": stats.counters.get("sim.clock-ticks").copied().unwrap_or(0),
             "simulated_plies": stats.counters.get("plies").copied().unwrap_or(0),
+            "c05_rights_ep_side_combinations_covered_of_64": c05_cover,
             "positions_monitored": stats.counters.get("positions").copied().unwrap_or(0),
             "faults_fired": faults,
             "reach_probes": probes,
